@@ -1,20 +1,665 @@
+// Harness for C16 (paint order): renders generated documents with /repo's real
+// pipeline on the recording backend, projects every laid-out page to the
+// abstract box tree of coq/theories/Draw/Stacking.v and translates the backend
+// trace to the model's event alphabet.  One case per page:
+//
+//	CPage <page info> <canvas element> <page children> <crashed> <noclip> <impl events>
 package main
 
 import (
+	"encoding/json"
+	"flag"
 	"fmt"
+	"math"
 	"os"
+	"path/filepath"
+	"sort"
+	"strings"
+	"time"
 
+	pr "github.com/benoitkugler/webrender/css/properties"
+	bo "github.com/benoitkugler/webrender/html/boxes"
+	"github.com/benoitkugler/webrender/html/document"
+	"github.com/benoitkugler/webrender/html/layout"
+	"github.com/benoitkugler/webrender/html/tree"
+
+	"verifharness/vlib"
 	"verifharness/vlib/render"
 )
 
-func main() {
-	b, _ := os.ReadFile(os.Args[1])
-	d, err := render.Render(string(b), nil, false, true, render.NewPango())
-	if err != nil {
-		panic(err)
+const (
+	anonBase = 100000 // ids of anonymous boxes
+	pageID   = 200000 // id of the page box (+ page index)
+	textBase = 300000 // id of the text box of element k = textBase + k
+	unknown  = 900000 // events whose colour names no element
+	marginK  = 900    // element number standing for the @top-center margin box
+)
+
+// ------------------------------------------------------------------ projection
+
+type abox struct {
+	ID    int
+	Kind  string
+	Flags int // 1 positioned, 2 z auto, 4 floated, 8 opacity<1, 16 transform, 32 overflow != visible
+	Z     int
+	Vis   int // 1 bg, 2 border, 4 content, 8 outline
+	Kids  []*abox
+}
+
+type projector struct {
+	anon      int
+	clipRects map[[4]float32][]int // padding box of overflow != visible boxes -> ids
+	bgRects   map[[4]float32]bool  // rectangles clipped by background painting
+	nboxes    int
+	nctx      int
+	canvasK   int
+}
+
+func elementNumber(b *bo.BoxFields) (int, bool) {
+	if b.Element == nil || b.PseudoType != "" {
+		return 0, false
 	}
-	rec := render.Draw(d, 1)
-	for _, e := range rec.Events {
-		fmt.Println(e.String())
+	for _, a := range b.Element.Attr {
+		if a.Key == "id" && strings.HasPrefix(a.Val, "e") {
+			var k int
+			if _, err := fmt.Sscanf(a.Val, "e%d", &k); err == nil {
+				return k, true
+			}
+		}
+	}
+	return 0, false
+}
+
+func kindOf(b bo.Box) string {
+	switch b.Type() {
+	case bo.BlockT, bo.TableCaptionT, bo.FootnoteAreaT:
+		return "KBlock"
+	case bo.FlexT, bo.GridT:
+		return "KFlex"
+	case bo.TableT, bo.InlineTableT:
+		return "KTable"
+	case bo.BlockReplacedT:
+		return "KBlockReplaced"
+	case bo.TableCellT:
+		return "KTableCell"
+	case bo.InlineT:
+		return "KInline"
+	case bo.InlineBlockT:
+		return "KInlineBlock"
+	case bo.InlineFlexT, bo.InlineGridT:
+		return "KInlineFlex"
+	case bo.InlineReplacedT, bo.ReplacedT:
+		return "KInlineReplaced"
+	case bo.LineT:
+		return "KLine"
+	case bo.TextT:
+		return "KText"
+	case bo.MarginT:
+		return "KMargin"
+	case bo.PageT:
+		return "KPage"
+	default:
+		return "KOther"
+	}
+}
+
+func rectKey(r bo.RoundedBox) [4]float32 {
+	return [4]float32{float32(r.X), float32(r.Y), float32(r.Width), float32(r.Height)}
+}
+
+func (p *projector) project(b bo.Box) *abox { return p.projectIn(b, -1) }
+
+// owner: element number standing for boxes without an element (margin boxes: 900)
+func (p *projector) projectIn(b bo.Box, owner int) *abox {
+	if ph, ok := b.(*layout.AbsolutePlaceholder); ok { // stacking.go:110-111
+		b = ph.AliasBox
+	}
+	f := b.Box()
+	a := &abox{Kind: kindOf(b)}
+	p.nboxes++
+	_, anonymous := f.Style.(*tree.AnonymousStyle)
+	k, hasK := elementNumber(f)
+	if !hasK && f.Element == nil {
+		if b.Type() == bo.MarginT {
+			owner = marginK
+			k, hasK, anonymous = owner, true, false
+		} else if owner >= 0 {
+			k, hasK, anonymous = owner, true, true
+		}
+	}
+	switch {
+	case a.Kind == "KText" && hasK:
+		a.ID = textBase + k
+	case hasK && !anonymous:
+		a.ID = k
+	default:
+		a.ID = anonBase + p.anon
+		p.anon++
+	}
+	st := f.Style
+	if st.GetPosition().String != "static" {
+		a.Flags |= 1
+	}
+	if z := st.GetZIndex(); z.String == "auto" {
+		a.Flags |= 2
+	} else {
+		a.Z = z.Int
+	}
+	if f.IsFloated() {
+		a.Flags |= 4
+	}
+	if st.GetOpacity() < 1 {
+		a.Flags |= 8
+	}
+	if len(st.GetTransform()) != 0 {
+		a.Flags |= 16
+	}
+	if st.GetOverflow() != "visible" {
+		a.Flags |= 32
+		if a.Kind != "KPage" {
+			key := rectKey(f.RoundedPaddingBox())
+			p.clipRects[key] = append(p.clipRects[key], a.ID)
+		}
+	}
+	if a.Flags&(8|16|32) != 0 || (a.Flags&1 != 0 && a.Flags&2 == 0) {
+		p.nctx++
+	}
+	// what of this box can reach the backend
+	if bg := f.Background; bg != nil {
+		if bg.Color.A > 0 {
+			a.Vis |= 1
+		}
+		if n := len(bg.Layers); n > 0 {
+			for _, cb := range bg.Layers[n-1].ClippedBoxes {
+				p.bgRects[rectKey(cb)] = true
+			}
+			pa := bg.Layers[n-1].PaintingArea
+			p.bgRects[[4]float32{float32(pa[0]), float32(pa[1]), float32(pa[2]), float32(pa[3])}] = true
+		}
+	}
+	if f.BorderTopWidth.V() != 0 || f.BorderRightWidth.V() != 0 || f.BorderBottomWidth.V() != 0 || f.BorderLeftWidth.V() != 0 {
+		a.Vis |= 2
+	}
+	if tb, ok := b.(*bo.TextBox); ok {
+		if strings.TrimSpace(tb.TextS()) != "" {
+			a.Vis |= 4
+		}
+	}
+	if st.GetOutlineWidth().Value != 0 && tree.ResolveColor(st, pr.POutlineColor).RGBA.A != 0 {
+		a.Vis |= 8
+	}
+	for _, c := range f.Children {
+		a.Kids = append(a.Kids, p.projectIn(c, owner))
+	}
+	return a
+}
+
+func (a *abox) coq(sb *strings.Builder) {
+	fmt.Fprintf(sb, "Box (mkb %d %s %d %s %d) [", a.ID, a.Kind, a.Flags, vlib.Z(a.Z), a.Vis)
+	for i, k := range a.Kids {
+		if i > 0 {
+			sb.WriteString("; ")
+		}
+		k.coq(sb)
+	}
+	sb.WriteString("]")
+}
+
+func (a *abox) info() string {
+	return fmt.Sprintf("(mkb %d %s %d %s %d)", a.ID, a.Kind, a.Flags, vlib.Z(a.Z), a.Vis)
+}
+
+func (a *abox) dump(sb *strings.Builder, depth int) {
+	fmt.Fprintf(sb, "%s%d %s", strings.Repeat(" ", depth), a.ID, a.Kind[1:])
+	if a.Flags&1 != 0 {
+		sb.WriteString(" pos")
+	}
+	if a.Flags&2 == 0 {
+		fmt.Fprintf(sb, " z=%d", a.Z)
+	}
+	for bit, name := range map[int]string{4: "float", 8: "opacity", 16: "transform", 32: "overflow"} {
+		if a.Flags&bit != 0 {
+			sb.WriteString(" " + name)
+		}
+	}
+	sb.WriteString("\n")
+	for _, k := range a.Kids {
+		k.dump(sb, depth+1)
+	}
+}
+
+// ------------------------------------------------------------------ trace translation
+
+type ev struct {
+	Kind string // Bg Border Content Outline CanvasBg PushClip PopClip PushOpacity ...
+	ID   int
+}
+
+func (e ev) coq() string {
+	switch e.Kind {
+	case "Bg", "Border", "Content", "Outline", "CanvasBg":
+		return fmt.Sprintf("%s %d", e.Kind, e.ID)
+	case "PushClip":
+		return fmt.Sprintf("Push EClip %d", e.ID)
+	case "PopClip":
+		return fmt.Sprintf("Pop EClip %d", e.ID)
+	case "PushOpacity":
+		return fmt.Sprintf("Push EOpacity %d", e.ID)
+	case "PopOpacity":
+		return fmt.Sprintf("Pop EOpacity %d", e.ID)
+	case "PushTransform":
+		return fmt.Sprintf("Push ETransform %d", e.ID)
+	case "PopTransform":
+		return fmt.Sprintf("Pop ETransform %d", e.ID)
+	}
+	return fmt.Sprintf("Unknown %d", e.ID)
+}
+
+func (e ev) String() string { return fmt.Sprintf("%s %d", e.Kind, e.ID) }
+
+func colourCode(args []render.Fl) (int, bool) {
+	if len(args) < 4 || args[3] != 1 {
+		return 0, false
+	}
+	c := 0
+	for i := 0; i < 3; i++ {
+		v := float64(args[i]) * 255
+		iv := math.Round(v)
+		if math.Abs(v-iv) > 1e-3 {
+			return 0, false
+		}
+		c = c<<8 | int(iv)
+	}
+	return c, true
+}
+
+// fillEvent names the event of a fill with the given colour
+func fillEvent(code int, ok bool, page int, canvasK int) ev {
+	if !ok {
+		return ev{"Unknown", unknown}
+	}
+	switch code {
+	case pageBgCode:
+		return ev{"Bg", pageID + page}
+	case pageBordCode:
+		return ev{"Border", pageID + page}
+	}
+	if code < codeBase {
+		return ev{"Unknown", unknown + code}
+	}
+	k, role := (code-codeBase)/4, (code-codeBase)%4
+	switch role {
+	case 0:
+		if k == canvasK {
+			return ev{"CanvasBg", k}
+		}
+		return ev{"Bg", k}
+	case 1:
+		return ev{"Border", k}
+	case 3:
+		return ev{"Outline", k}
+	}
+	return ev{"Unknown", unknown + code} // a text colour used for a fill
+}
+
+type frame struct{ closers []ev }
+
+type canvasState struct {
+	frames  []frame
+	base    frame // effects applied outside any frame of this canvas (group canvases)
+	openIdx int   // index in out of the PushOpacity placeholder
+}
+
+func translate(events []render.Event, page int, p *projector) []ev {
+	var out []ev
+	canv := map[string]*canvasState{}
+	var stack []string // canvases: page canvas at the bottom, then groups
+	get := func(cid string) *canvasState {
+		c := canv[cid]
+		if c == nil {
+			c = &canvasState{}
+			canv[cid] = c
+		}
+		return c
+	}
+	var pathRects [][4]float32
+	pathOther := false
+	resetPath := func() { pathRects, pathOther = nil, false }
+	var fill []render.Fl
+	ntransform := 0
+	addEffect := func(open, close ev) {
+		out = append(out, open)
+		if len(stack) == 0 {
+			return
+		}
+		c := get(stack[len(stack)-1])
+		if n := len(c.frames); n > 0 {
+			c.frames[n-1].closers = append(c.frames[n-1].closers, close)
+		} else {
+			c.base.closers = append(c.base.closers, close)
+		}
+	}
+	closeFrame := func(f frame) {
+		for i := len(f.closers) - 1; i >= 0; i-- {
+			out = append(out, f.closers[i])
+		}
+	}
+	for _, e := range events {
+		if e.Page != page {
+			continue
+		}
+		switch e.Op {
+		case "Push":
+			if len(stack) == 0 {
+				stack = append(stack, e.S)
+			}
+			c := get(e.S)
+			c.frames = append(c.frames, frame{})
+		case "Pop":
+			c := get(e.S)
+			if n := len(c.frames); n > 0 {
+				closeFrame(c.frames[n-1])
+				c.frames = c.frames[:n-1]
+			}
+		case "NewGroup":
+			c := get(e.S)
+			c.openIdx = len(out)
+			out = append(out, ev{"PushOpacity", unknown})
+			stack = append(stack, e.S)
+		case "DrawWithOpacity":
+			c := get(e.S)
+			for len(c.frames) > 0 { // unbalanced group canvas
+				closeFrame(c.frames[len(c.frames)-1])
+				c.frames = c.frames[:len(c.frames)-1]
+			}
+			closeFrame(c.base)
+			id := unknown
+			if len(e.Args) == 1 {
+				v := float64(e.Args[0]) * 1000
+				if math.Abs(v-math.Round(v)) < 1e-2 {
+					id = int(math.Round(v))
+				}
+			}
+			out[c.openIdx].ID = id
+			out = append(out, ev{"PopOpacity", id})
+			if n := len(stack); n > 1 && stack[n-1] == e.S {
+				stack = stack[:n-1]
+			} else {
+				out = append(out, ev{"Unknown", unknown + 1}) // groups not nested
+			}
+		case "Transform":
+			ntransform++
+			if ntransform <= 2 { // Document.Write's flip and Page.Paint's zoom
+				continue
+			}
+			id := unknown
+			a := e.Args
+			if len(a) == 6 && a[0] == 1 && a[1] == 0 && a[2] == 0 && a[3] == 1 && math.Abs(float64(a[5])) < 1e-3 {
+				if v := float64(a[4]); math.Abs(v-math.Round(v)) < 1e-2 {
+					id = int(math.Round(v))
+				}
+			}
+			addEffect(ev{"PushTransform", id}, ev{"PopTransform", id})
+		case "Rectangle":
+			pathRects = append(pathRects, [4]float32{e.Args[0], e.Args[1], e.Args[2], e.Args[3]})
+		case "MoveTo", "LineTo", "CubicTo", "ClosePath":
+			pathOther = true
+		case "Clip":
+			if !pathOther && len(pathRects) == 1 {
+				if ids, ok := p.clipRects[pathRects[0]]; ok {
+					id := ids[0]
+					addEffect(ev{"PushClip", id}, ev{"PopClip", id})
+				}
+			}
+			resetPath()
+		case "SetColorRgba":
+			if e.S == "false" {
+				fill = e.Args
+			}
+		case "Paint":
+			code, ok := colourCode(fill)
+			out = append(out, fillEvent(code, ok, page, p.canvasK))
+			resetPath()
+		case "DrawText":
+			code, ok := colourCode(fill)
+			if ok && code >= codeBase && (code-codeBase)%4 == 2 {
+				out = append(out, ev{"Content", textBase + (code-codeBase)/4})
+			} else {
+				out = append(out, ev{"Unknown", unknown + 2})
+			}
+		case "DrawRasterImage", "DrawGradient", "SetColorPattern", "SetAlphaMask":
+			out = append(out, ev{"Unknown", unknown + 3})
+		}
+	}
+	// an outline is four fills (one per side) of the same colour
+	var res []ev
+	for i := 0; i < len(out); i++ {
+		if out[i].Kind == "Outline" && i+3 < len(out) && out[i+1] == out[i] && out[i+2] == out[i] && out[i+3] == out[i] {
+			res = append(res, out[i])
+			i += 3
+			continue
+		}
+		res = append(res, out[i])
+	}
+	return res
+}
+
+// ------------------------------------------------------------------ one document
+
+type pageCase struct {
+	Coq        string
+	Tree       string
+	Impl       []string
+	Tags       []string
+	Nontrivial bool
+}
+
+type docResult struct {
+	Status string // ok | layout-panic
+	Msg    string
+	Pages  []pageCase
+}
+
+func runDocument(html string) docResult {
+	var doc *document.Document
+	o := render.GuardTimeout(20*time.Second, func() {
+		var err error
+		doc, err = render.Render(html, nil, false, true, render.NewPango())
+		if err != nil {
+			panic(err)
+		}
+	})
+	if o.Status != "ok" {
+		return docResult{Status: "layout-" + o.Status, Msg: o.Site + " " + o.Msg}
+	}
+	var rec *render.Recorder
+	crashed := false
+	crashMsg := ""
+	o = render.GuardTimeout(20*time.Second, func() {
+		rec = render.NewRecorder()
+		doc.Write(rec, 1, nil)
+	})
+	if o.Status != "ok" {
+		crashed = true
+		crashMsg = o.Status + " " + o.Site + " " + o.Msg
+	}
+	res := docResult{Status: "ok", Msg: crashMsg}
+	for pi, pg := range doc.Pages {
+		pb := pg.VerifPageBox()
+		p := &projector{clipRects: map[[4]float32][]int{}, bgRects: map[[4]float32]bool{}, canvasK: -1}
+		// the page box itself
+		pageInfo := &abox{ID: pageID + pi, Kind: "KPage", Flags: 2, Vis: 0}
+		if pb.Background != nil && pb.Background.Color.A > 0 {
+			pageInfo.Vis |= 1
+		}
+		if pb.BorderTopWidth.V() != 0 {
+			pageInfo.Vis |= 2
+		}
+		if pb.Style.GetOverflow() != "visible" {
+			pageInfo.Flags |= 32
+		}
+		var roots []*abox
+		for _, c := range pb.Children {
+			roots = append(roots, p.project(c))
+		}
+		if cb := pb.CanvasBackground; cb != nil && cb.Color.A > 0 {
+			args := []render.Fl{render.Fl(cb.Color.R), render.Fl(cb.Color.G), render.Fl(cb.Color.B), render.Fl(cb.Color.A)}
+			if code, ok := colourCode(args); ok && code >= codeBase && (code-codeBase)%4 == 0 {
+				p.canvasK = (code - codeBase) / 4
+			}
+		}
+		var tags []string
+		noclip := false
+		for r, ids := range p.clipRects {
+			if len(ids) > 1 || p.bgRects[r] {
+				noclip = true
+			}
+		}
+		if noclip {
+			tags = append(tags, "clip-ambiguous")
+		}
+		var impl []ev
+		if rec != nil {
+			impl = translate(rec.Events, pi, p)
+		}
+		if noclip {
+			var f []ev
+			for _, e := range impl {
+				if e.Kind != "PushClip" && e.Kind != "PopClip" {
+					f = append(f, e)
+				}
+			}
+			impl = f
+		}
+		var sb strings.Builder
+		canvas := p.canvasK
+		if canvas < 0 {
+			canvas = unknown
+		}
+		fmt.Fprintf(&sb, "CPage %s %d [", pageInfo.info(), canvas)
+		for i, r := range roots {
+			if i > 0 {
+				sb.WriteString("; ")
+			}
+			r.coq(&sb)
+		}
+		fmt.Fprintf(&sb, "] %s %s [", vlib.Bool(crashed), vlib.Bool(noclip))
+		var implS []string
+		for i, e := range impl {
+			if i > 0 {
+				sb.WriteString("; ")
+			}
+			sb.WriteString(e.coq())
+			implS = append(implS, e.String())
+		}
+		sb.WriteString("]")
+		var tr strings.Builder
+		for _, r := range roots {
+			r.dump(&tr, 0)
+		}
+		if len(doc.Pages) > 1 {
+			tags = append(tags, "multi-page")
+		}
+		if crashed {
+			tags = append(tags, "draw-crash")
+		}
+		res.Pages = append(res.Pages, pageCase{Coq: sb.String(), Tree: tr.String(), Impl: implS, Tags: tags, Nontrivial: p.nctx >= 2})
+	}
+	return res
+}
+
+func handle(in string) string {
+	r := runDocument(in)
+	b, _ := json.Marshal(r)
+	return string(b)
+}
+
+func main() {
+	if vlib.IsWorker() {
+		vlib.WorkerMain(handle)
+	}
+	out := flag.String("out", "cases.jsonl", "output file")
+	n := flag.Int("n", 300, "number of documents")
+	probe := flag.String("probe", "", "render one html file and print tree + events")
+	par := flag.Int("par", 8, "worker processes")
+	flag.Parse()
+	if *probe != "" {
+		b, err := os.ReadFile(*probe)
+		if err != nil {
+			panic(err)
+		}
+		r := runDocument(string(b))
+		fmt.Println(r.Status, r.Msg)
+		for _, p := range r.Pages {
+			fmt.Println(p.Tree)
+			fmt.Println(strings.Join(p.Impl, "\n"))
+			fmt.Println(p.Coq)
+		}
+		return
+	}
+	type job struct {
+		html string
+		tags []string
+		kind string
+		name string
+	}
+	var jobs []job
+	// regression corpus first
+	files, _ := filepath.Glob("../corpus/C16/*.html")
+	sort.Strings(files)
+	for _, f := range files {
+		b, err := os.ReadFile(f)
+		if err == nil {
+			jobs = append(jobs, job{html: string(b), kind: "corpus", name: filepath.Base(f)})
+		}
+	}
+	rng := vlib.NewRng(vlib.Seed())
+	for len(jobs) < *n {
+		r := rng.Fork()
+		size := r.Range(3, 12)
+		if r.Chance(1, 4) {
+			size = r.Range(12, 40)
+		}
+		d := genDocument(r, size)
+		jobs = append(jobs, job{html: d.HTML, tags: d.Tags, kind: "gen"})
+	}
+	inputs := make([]string, len(jobs))
+	for i, j := range jobs {
+		inputs[i] = j.html
+	}
+	results := vlib.RunPool(inputs, *par, 60*time.Second, 0)
+	w := vlib.NewWriter(*out)
+	defer w.Close()
+	skipped := map[string]int{}
+	for i, wr := range results {
+		j := jobs[i]
+		if wr.Status != "ok" {
+			skipped["worker-"+wr.Status]++
+			continue
+		}
+		var r docResult
+		if err := json.Unmarshal([]byte(wr.Out), &r); err != nil {
+			skipped["bad-json"]++
+			continue
+		}
+		if r.Status != "ok" {
+			skipped[r.Status]++
+			continue
+		}
+		for pi, p := range r.Pages {
+			tags := append(append([]string{}, j.tags...), p.Tags...)
+			sort.Strings(tags)
+			desc := map[string]interface{}{"html": j.html, "page": pi, "tree": p.Tree, "impl_events": p.Impl}
+			if j.name != "" {
+				desc["corpus"] = j.name
+			}
+			if r.Msg != "" {
+				desc["draw_crash"] = r.Msg
+			}
+			w.Add(vlib.Case{Kind: j.kind, Coq: p.Coq, Desc: desc, Tags: tags, Nontrivial: p.Nontrivial})
+		}
+	}
+	if len(skipped) > 0 {
+		fmt.Fprintln(os.Stderr, "skipped documents:", skipped)
 	}
 }
